@@ -78,7 +78,7 @@ def run(ctx: Ctx):
     complete_phase(ctx)
     no_diversion(ctx)
     dropoff(ctx)
-    rules.rule_default_update(ctx, "D5")
+    rules.rule_default_update(ctx, "D5", require_perform_update=True)
     cancellation(ctx)
     ctx.floor("WMC.callers", 8)
     ctx.floor("CMP", 2)
